@@ -326,6 +326,14 @@ def build_functions(W):
         add(f"{key}.mul_int", "field", [E, "int"], operator.mul)
         add(f"{key}.rmul_int", "field", ["int", E], operator.mul)
         add(f"{key}.div_int", "field", [E, "int"], operator.truediv)
+        # augmented assignment (a += b, a *= b ...): elements are values, so the object bound to `a` before the
+        # statement must keep its value (the argument snapshot catches an in-place __iadd__/__imul__)
+        add(f"{key}.iadd", "field", [E, E], operator.iadd)
+        add(f"{key}.isub", "field", [E, E], operator.isub)
+        add(f"{key}.imul", "field", [E, E], operator.imul)
+        add(f"{key}.itruediv", "field", [E, E], operator.itruediv)
+        add(f"{key}.imul_int", "field", [E, "int"], operator.imul)
+        add(f"{key}.ipow", "field", [E, "smallint"], operator.ipow)
         add(f"{key}.one", "field", [], cls.one, result_tag=E)
         add(f"{key}.zero", "field", [], cls.zero, result_tag=E)
         if "FQ12" in key or "FQ2" in key:
@@ -983,6 +991,9 @@ def t_pinned(ctx):
         {"f": "pop.KeyGen:bytearray", "args": [lit(bytearray(b"seed material")), lit(bytearray(b"info"))]},
         {"f": "hkdf_expand:bytearray", "args": [lit(bytearray(32)), lit(bytearray(b"info")), lit(33)]},
         {"f": "pop.KeyGen:bytearray", "args": [lit(bytearray(b"seed material")), lit(bytearray(b"info"))]},
+        {"f": f"{OB}_FQ12.imul", "args": [{"c": f"{op}.exptable[3]"}, {"c": f"{op}.exptable[5]"}]},
+        {"f": "optimized_bn128_FQ2.iadd", "args": [{"c": "py_ecc.optimized_bn128.b2"}, {"c": "py_ecc.optimized_bn128.b2"}]},
+        {"f": "bls12_381_FQ12.imul", "args": [{"c": "py_ecc.bls12_381.b12"}, {"c": "py_ecc.bls12_381.b12"}]},
         {"f": "pop.SkToPk", "args": [lit(0)]},
         {"f": "basic.SkToPk", "args": [lit(R_BLS)]},
         {"f": "aug.KeyValidate", "args": [lit(b"\xc0" + bytes(47))]},
